@@ -127,6 +127,11 @@ class Conc:
             b = skip_copies(base) if isinstance(base, dict) else None
             if (b is None or b.get("k") == "this" or (isinstance(b, dict) and b.get("k") == "unop" and skip_copies(b.get("e")).get("k") == "this")) and nm in fields:
                 return fields[nm]
+            if isinstance(b, dict) and b.get("k") == "member" and not n.get("arrow") and nm in fields:
+                # field of a member struct held by value (this->m_spec.width): keyed by the leaf's qualified name
+                bb = skip_copies(b.get("base")) if isinstance(b.get("base"), dict) else None
+                if bb is None or bb.get("k") == "this":
+                    return fields[nm]
             if "cv" in n:
                 return n["cv"]
             raise Unknown("field %s" % nm)
@@ -240,6 +245,13 @@ class Conc:
                     return ""
                 if len(args) == 1:
                     return self.eval(args[0], env, depth)
+                if len(args) == 2:
+                    a0, a1 = self.eval(args[0], env, depth), self.eval(args[1], env, depth)
+                    if isinstance(a0, int) and isinstance(a1, (int, str)):      # QString(count, fill)
+                        c_ = chr(a1) if isinstance(a1, int) else a1
+                        return c_ * max(a0, 0)
+                    if isinstance(a0, str) and isinstance(a1, int):              # QString(text, length)
+                        return a0 if a1 < 0 else a0[:a1]
             # associative / sequence containers from brace lists
             from .util import initlist_pairs
             try:
@@ -314,6 +326,41 @@ class Conc:
                     if short == "compare" and len(real) == 1 and isinstance(av(0), str):
                         a0 = av(0)
                         return (o > a0) - (o < a0)
+                    ints = [self.eval(a_, env, depth) for a_ in real]
+                    ch = lambda v: chr(v) if isinstance(v, int) else v
+                    if short == "left" and len(real) == 1 and isinstance(ints[0], int):
+                        return o if ints[0] < 0 or ints[0] >= len(o) else o[:ints[0]]
+                    if short == "right" and len(real) == 1 and isinstance(ints[0], int):
+                        return o if ints[0] < 0 or ints[0] >= len(o) else o[len(o) - ints[0]:]
+                    if short == "mid" and real and all(isinstance(i_, int) for i_ in ints) and ints[0] >= 0:
+                        return o[ints[0]:] if len(ints) == 1 or ints[1] < 0 else o[ints[0]:ints[0] + ints[1]]
+                    if short in ("chopped",) and len(real) == 1 and isinstance(ints[0], int) and 0 <= ints[0] <= len(o):
+                        return o[:len(o) - ints[0]]
+                    if short in ("leftJustified", "rightJustified") and real and isinstance(ints[0], int):
+                        fill = ch(ints[1]) if len(ints) > 1 else " "
+                        trunc = bool(ints[2]) if len(ints) > 2 else False
+                        if not isinstance(fill, str) or len(fill) != 1:
+                            raise Unknown("fill character")
+                        w = ints[0]
+                        if len(o) >= w:
+                            return o[:w] if trunc and w >= 0 else o
+                        return o + fill * (w - len(o)) if short == "leftJustified" else fill * (w - len(o)) + o
+                    if short in ("append", "prepend", "operator+=", "push_back", "reserve", "squeeze", "clear", "truncate", "chop") :
+                        tgt = skip_copies(obj)
+                        if short in ("reserve", "squeeze"):
+                            return o
+                        if short == "clear":
+                            new = ""
+                        elif short == "truncate" and isinstance(ints[0], int):
+                            new = o[:max(ints[0], 0)]
+                        elif short == "chop" and isinstance(ints[0], int):
+                            new = o[:max(len(o) - ints[0], 0)] if ints[0] > 0 else o
+                        elif len(ints) == 1 and isinstance(ch(ints[0]), str):
+                            new = ch(ints[0]) + o if short == "prepend" else o + ch(ints[0])
+                        else:
+                            raise Unknown("string method %s" % short)
+                        self.store(tgt, new, env)
+                        return new
                     raise Unknown("string method %s" % short)
             if any(c in cls for c in ("QHash", "QMap", "std::map", "std::unordered_map", "QList", "QVector", "QSet", "std::array", "std::vector", "QStringList", "std::initializer_list")):
                 o = self.eval(obj, env, depth)
